@@ -263,3 +263,25 @@ _p('C20', ['R24', 'R25', 'R12', 'R42', 'R7', 'R13', 'R20', 'R31', 'R38', 'R2', '
    'only. R13: no hash order in output.',
    'Byte-for-byte idempotence of the output is not decided.',
    'Path, guard and threading facts on penman/__main__.py; necessary conditions.', [T_CFG, T_CG, T_DOC])
+
+
+# ---------------------------------------------------------------------------------------------
+# Rules added after the fifth seeding round and the mutant sweep (tools/dev/mutsweep.py). They are general
+# necessary conditions; each is registered for every property whose observable API runs through the code it reads.
+_ALL = sorted(PROPS)
+_EXTRA = {
+    'R80': (['C02', 'C03', 'C04', 'C05', 'C10', 'C11', 'C12', 'C14', 'C15', 'C16', 'C17', 'C20'],
+            'R80: no variable / role / constant (one string, by E3 type) is handed to set(), list.extend, set.union ... which would take it apart into characters.'),
+    'R81': (_ALL, 'R81: definite assignment - on no CFG path is a local read before it is bound (such a path ends in UnboundLocalError, neither a result nor the documented error).'),
+    'R82': (['C16', 'C20'], 'R82: in _check the counter that names the error-N key moves between two offending triples on every path.'),
+    'R83': (['C03', 'C05', 'C12', 'C20'], 'R83: _find_next skips POP data, stops at its first hit, and splits the pending data with the index of the loop that found the hit.'),
+    'R84': (['C04'], 'R84: surface.alignments / role_alignments scan the whole marker list of a triple.'),
+    'R85': (['C10', 'C20'], 'R85: the letter that becomes the variable prefix is chosen with str.isalpha (or a one-character pattern whose language is exactly that set).'),
+    'R87': (['C20', 'C17'], 'R87: the option tables main() builds once are only read by process/_process_in/_process_out (alias-following over what is unpacked from them).'),
+    'R86': (['C01', 'C07', 'C09', 'C20'], 'R86: an argument annotated as Iterable / Iterator / file is walked at most once on every path (a second walk of a file or generator finds nothing).'),
+}
+for _r, (_props, _text) in _EXTRA.items():
+    for _pid in _props:
+        if _pid in PROPS and _r not in PROPS[_pid]['rules']:
+            PROPS[_pid]['rules'].append(_r)
+            PROPS[_pid]['explanation'] += ' ' + _text
